@@ -592,7 +592,10 @@ impl<'a> Gen<'a> {
         } else {
             Dir::Desc
         };
-        let nulls_first = if allow_nulls && !matches!(dir, Dir::Field(_)) && self.rng.chance(1, 3) { Some(self.rng.coin()) } else { None };
+        // FIELD order + NULLS ordering: MySQL's emulation orders by the expression's nullness, the native
+        // `CASE .. END NULLS LAST` of Postgres/SQLite is a no-op (the CASE is never NULL) — listed finding
+        // KF-C09-field-order-nulls, pinned probe in C09; the combination is not generated for portable statements
+        let nulls_first = if allow_nulls && (self.cfg.dialect.is_some() || !matches!(dir, Dir::Field(_))) && self.rng.chance(1, 3) { Some(self.rng.coin()) } else { None };
         Ord_ { expr: X::Col(crate::util::intern(&c)), dir, nulls_first }
     }
 
@@ -650,6 +653,10 @@ impl<'a> Gen<'a> {
             }
         }
         if !self.cfg.exec {
+            if self.cfg.is(Dialect::Postgres) && s.limit.is_none() && self.rng.chance(1, 8) {
+                // Postgres has OFFSET without LIMIT
+                s.offset = Some(self.rng.below(9) as u64);
+            }
             self.text_level_extras(&mut s);
         }
         s.with = with;
@@ -795,6 +802,10 @@ impl<'a> Gen<'a> {
                 s.source = InsSource::Default(n);
                 let t4 = Rel { name: "t4".into(), cols: vec![("id".into(), K::I), ("w".into(), K::I)], key: vec![] };
                 s.returning = self.returning(&t4);
+                if self.rng.chance(1, 3) {
+                    let action = if self.cfg.is(Dialect::Mysql) || self.rng.coin() { ConflictAction::UpdateCols(vec!["w".into()]) } else { ConflictAction::Nothing };
+                    s.conflict = Some(Conflict { target_cols: vec!["id".into()], target_exprs: vec![], target_where: vec![], action: Some(action), action_where: vec![] });
+                }
                 return s;
             }
             1 | 2 => {
